@@ -193,6 +193,26 @@ class CacheWorld:
             return orig_call(f, args, kwargs, node, env)
 
         self.it.call = call
+        # module-level helpers and constants of pipe/cache.py (a guard may live in a helper function, a tuple of function types in
+        # a module constant): resolved on demand in this environment
+        top_defs = {st.name: st for st in self.mod.tree.body if isinstance(st, ast.FunctionDef)}
+        top_consts = {}
+        for st in self.mod.tree.body:
+            if isinstance(st, ast.Assign) and len(st.targets) == 1 and isinstance(st.targets[0], ast.Name):
+                top_consts[st.targets[0].id] = st.value
+            elif isinstance(st, ast.AnnAssign) and isinstance(st.target, ast.Name) and st.value is not None:
+                top_consts[st.target.id] = st.value
+
+        def resolve(name):
+            if name in top_defs:
+                self.env[name] = Func(top_defs[name], self.env, self.it)
+                return self.env[name]
+            if name in top_consts:
+                self.env[name] = self.it.ev(top_consts[name], self.env)
+                return self.env[name]
+            raise KeyError(name)
+
+        self.it.global_resolver = resolve
         cd = next((st for st in self.mod.tree.body if isinstance(st, ast.ClassDef) and st.name == "Cache"), None)
         if cd is None:
             raise AnalysisError("cachesim: class Cache not found in pipe/cache.py")
@@ -220,16 +240,18 @@ class CacheWorld:
             cols[cn] = self.obj("Col", name=cn, _ast=src, _uuid=u, _dtype=self.I, _ftype=EW)
         src.attrs["cols"] = cols
         fa = self.cache_cls.methods.get("from_ast")
-        kws = self._fresh_keywords(fa.node) if fa is not None else []
-        if not kws:
-            raise AnalysisError("cachesim: Cache.from_ast no longer builds the cache of a source table with a `Cache(...)` call")
-        c = Obj(self.cache_cls)
-        env = dict(self.env, node=src)
-        for kw in kws:
-            if kw.arg == "backend":
-                c.attrs["backend"] = self.obj("Backend", backend_name=backend)
-            else:
-                c.attrs[kw.arg] = self.it.ev(kw.value, env)
+        if fa is None:
+            raise AnalysisError("cachesim: Cache.from_ast not found")
+        # the interpreted `Cache.from_ast(<source table>)` itself (whatever its spelling): new state fields get the initial value
+        # the source gives them
+        self.env["TableImpl"] = self.env["Source"]
+        try:
+            c = self.it.call(fa, [src], {}, None, self.env)
+        except PyRaise as e:
+            raise AnalysisError(f"cachesim: Cache.from_ast of a source table raises {e.name}: {e.msg}") from None
+        if not isinstance(c, Obj) or c.cls is not self.cache_cls:
+            raise AnalysisError("cachesim: Cache.from_ast of a source table does not return a Cache")
+        c.attrs["backend"] = self.obj("Backend", backend_name=backend)
         return src, c
 
     @staticmethod
@@ -889,3 +911,28 @@ def report(chk, m, rule, prop, what):
         chk.ok(rule, cache, fn, f"{st['updates']} interpreted Cache.update steps leave the input cache untouched")
     chk.extra_cov.setdefault("cache_typestate", {}).update({"depth": sql.depth, **st, "what": what})
     return judged
+
+
+def report_hazards(chk, m, rule, kinds, what, floor=50):
+    """the hazard table decided on the shared typestate exploration: for every reachable cache state and every verb of `kinds`
+    (prefixes of palette actions) the guard must refuse exactly what the reference automaton calls a hazard.  Returns False when
+    the exploration is not possible (the caller falls back to reading the guards' shape)."""
+    cache = chk.repo.mod("pipe.cache")
+    fn = cache.func("Cache.requires_subquery")
+    try:
+        sql, _pol = explore(chk, m)
+    except AnalysisError as e:
+        chk.undecided.append(f"{rule}: Cache typestate exploration not possible: {str(e)[:160]}")
+        return False
+    n = 0
+    for f in sql.findings.values():
+        if f.issue not in ("missed-hazard", "internal-error") or not any(f.kind.startswith(k) for k in kinds):
+            continue
+        n += 1
+        if n <= 40:
+            chk.ob(rule, cache, fn, f"{f.issue}: {' >> '.join(f.seq)}", False, f"[{f.issue}] {f.detail}", extra={"witness": f.seq, "reason": f.reason})
+    st = sql.stats
+    chk.ok(rule, cache, fn, f"{what}: {st['distinct_states']} distinct cache states (verb sequences up to {sql.depth} verbs), every hazard of "
+           f"{'/'.join(kinds)} is refused by Cache.requires_subquery ({st['hazards_confirmed']} hazards confirmed over all verbs)")  # fmt: skip
+    chk.floor(rule, "hazards confirmed by the exploration", st["hazards_confirmed"], floor)
+    return True
